@@ -126,7 +126,8 @@ static void case_big(const args_t *a, long c, rng_t *r)
 {
 	g_prop = "C11";
 	char path[4096]; snprintf(path, sizeof path, "%s/c11-big-%ld.mtbl", a->workdir, c);
-	const uint64_t V = 0xFFFFFF00ULL + (uint64_t)rndn(r, 200);       /* one value just below 4 GiB (vlen is a 32-bit varint) */
+	uint64_t V = 0xFFFFFF00ULL + (uint64_t)rndn(r, 200);       /* one value just below 4 GiB (vlen is a 32-bit varint) */
+	const int straddle = (c % 3 == 2);   /* entry area <= UINT32_MAX < whole block: 32-bit restart array in a block larger than 4 GiB */
 	const size_t prefix = (c % 2) ? 13 : 0;
 	/* logical content: entry 0 has the huge zero value; entries 1..8 small */
 	model_t m; model_init(&m);
@@ -143,14 +144,22 @@ static void case_big(const args_t *a, long c, rng_t *r)
 		is_restart[i] = (i == 0) || (i == 1) || rndn(r, 2);
 		shared[i] = is_restart[i] ? 0 : (uint32_t)lcp((uint8_t *)keys[i - 1], strlen(keys[i - 1]), (uint8_t *)keys[i], strlen(keys[i]));
 		if (!is_restart[i] && rndn(r, 2)) shared[i] = rndn(r, shared[i] + 1);
+	}
+	for (int pass = 0; pass < 2; pass++) {
+	cur = 0; nrs = 0;
+	for (int i = 0; i < NE; i++) {
 		ent_off[i] = cur;
 		if (is_restart[i]) restarts[nrs++] = cur;
 		uint64_t lv = i == 0 ? V : sl[i];
 		uint8_t t[16]; size_t h = rd_varint_put(t, shared[i]); h += rd_varint_put(t + h, strlen(keys[i]) - shared[i]); h += rd_varint_put(t + h, lv);
 		cur += h + (strlen(keys[i]) - shared[i]) + lv;
 	}
-	uint64_t entries_end = cur;                         /* > UINT32_MAX */
-	uint64_t raw_len = entries_end + 8 * nrs + 4;       /* 64-bit restart array */
+	if (pass == 0 && straddle) { uint64_t rest = cur - V, delta = rndn(r, (uint32_t)(4 * nrs + 4)); V = (uint64_t)UINT32_MAX - delta - rest; } else break;
+	}
+	uint64_t entries_end = cur;                         /* > UINT32_MAX, or (straddle) within the last 4*nrs+4 bytes below it */
+	const unsigned rw = straddle ? 4 : 8;
+	uint64_t raw_len = entries_end + rw * nrs + 4;      /* 64-bit restart array unless the entry area itself fits 32 bits */
+	if (straddle && !(entries_end <= UINT32_MAX && raw_len > UINT32_MAX)) { inconclusive("straddle construction failed"); close(fd); unlink(path); return; }
 	size_t len_len = rd_varint_put(hdr, raw_len);
 	uint64_t base = prefix + len_len + 4;
 	uint8_t pfx[16]; for (size_t i = 0; i < prefix; i++) pfx[i] = 0x3c ^ (uint8_t)i;
@@ -165,9 +174,9 @@ static void case_big(const args_t *a, long c, rng_t *r)
 		pwrite(fd, e, n, base + ent_off[i]);
 	}
 	uint8_t *ra = xmalloc(8 * nrs + 4);
-	for (size_t j = 0; j < nrs; j++) rd_put64(ra + 8 * j, restarts[j]);
-	rd_put32(ra + 8 * nrs, (uint32_t)nrs);
-	pwrite(fd, ra, 8 * nrs + 4, base + entries_end);
+	for (size_t j = 0; j < nrs; j++) { if (rw == 8) rd_put64(ra + 8 * j, restarts[j]); else rd_put32(ra + 4 * j, (uint32_t)restarts[j]); }
+	rd_put32(ra + rw * nrs, (uint32_t)nrs);
+	pwrite(fd, ra, rw * nrs + 4, base + entries_end);
 	free(ra);
 	uint64_t data_end = base + raw_len;
 	/* second, ordinary block */
@@ -242,7 +251,7 @@ static void case_big(const args_t *a, long c, rng_t *r)
 		}
 		mtbl_reader_destroy(&rd);
 	}
-	stat_add("c11.big.restart_points_above_4GiB", nrs - 1);
+	if (straddle) STAT("c11.big.straddling_blocks_32bit_restarts_over_4GiB"); else stat_add("c11.big.restart_points_above_4GiB", nrs - 1);
 	STAT("c11.big.files");
 	if (want_sample()) sample("big: v2 file, block 0 = %d entries, first value %" PRIu64 " bytes (sparse), %zu restart points of which %zu above 4 GiB (64-bit restart array), foreign prefix %zu", NE, V, nrs, nrs - 1, prefix);
 	case_hash(V ^ fnv64(is_restart, sizeof is_restart, 0));
